@@ -70,7 +70,10 @@ def check_ham_neighbors(case, rec):
         got = list(call("hamming_neighbors", lambda: list(D.hamming_neighbors(x, alpha))))
         allowed = range(len(x))
     else:
-        got = list(call("hamming_neighbors", lambda: list(D.hamming_neighbors(x, alpha, variable_positions=list(pos)))))
+        how = case.get("positions_as", "list")
+        vp = {"list": lambda: list(pos), "tuple": lambda: tuple(pos), "iter": lambda: iter(list(pos)),
+              "generator": lambda: (p for p in pos), "set": lambda: set(pos), "reversed": lambda: reversed(list(pos))}[how]
+        got = list(call("hamming_neighbors", lambda: list(D.hamming_neighbors(x, alpha, variable_positions=vp()))))
         allowed = pos
     want = [x[:i] + a + x[i + 1:] for i in allowed for a in alpha if a != x[i]]
     same_multiset("ham-neighbourhood", got, want, f"x={x!r} alphabet={alpha!r} positions={pos}")
@@ -214,6 +217,7 @@ def ham_random(draw, tier="quick"):
     case = {"x": x, "alphabet": G.AA}
     if x and draw(st.booleans()):
         case["positions"] = sorted(draw(st.sets(st.integers(0, len(x) - 1), max_size=len(x))))
+        case["positions_as"] = draw(st.sampled_from(["list", "tuple", "iter", "generator", "set", "reversed"]))
     return case
 
 
